@@ -4,6 +4,7 @@ import ClarabelModel.Cones.Exp
 import ClarabelModel.Cones.Pow
 import ClarabelModel.Cones.GenPow
 import ClarabelModel.Cones.PsdStep
+import ClarabelModel.Cones.PsdBarrier
 
 open Clarabel Driver
 
@@ -221,6 +222,24 @@ def handle2 (ch : String) (kv : KV) : String :=
         let K : PsdTri.Cone Float := ⟨n, #[], #[], R, Ri, #[]⟩
         fmtM fpair (PsdStep.stepLength K dz ds (gammaOf okz gz) (gammaOf oks gs) a)
     | _, _, _, _, _, _, _, _, _, _, _ => "bad-request"
+  | "psd.barrier_matrix" =>
+    match kv.nat "n", kv.floats "x", kv.floats "dx", kv.float "a" with
+    | some n, some x, some dx, some a => fv "m" (PsdBarrier.barrierMatData n x dx a)
+    | _, _, _, _ => "bad-request"
+  | "psd.logdet_barrier" =>
+    match kv.nat "n", kv.floats "x", kv.floats "dx", kv.float "a", kv.nat "ok", kv.floats "L" with
+    | some n, some x, some dx, some a, some ok, some L =>
+      fmtM (fun v => s!"v={fmtFloat v}")
+        (PsdBarrier.logdetBarrier n x dx a (if ok == 0 then none else some L))
+    | _, _, _, _, _, _ => "bad-request"
+  | "psd.compute_barrier" =>
+    match kv.nat "n", kv.floats "z", kv.floats "s", kv.floats "dz", kv.floats "ds", kv.float "a",
+          kv.nat "okz", kv.floats "Lz", kv.nat "oks", kv.floats "Ls" with
+    | some n, some z, some s, some dz, some ds, some a, some okz, some Lz, some oks, some Ls =>
+      fmtM (fun v => s!"v={fmtFloat v}")
+        (PsdBarrier.computeBarrier n z s dz ds a (if okz == 0 then none else some Lz)
+          (if oks == 0 then none else some Ls))
+    | _, _, _, _, _, _, _, _, _, _ => "bad-request"
   | "psdcomp.margins" =>
     match specs kv, kv.floats "z", eigsOf kv with
     | some sp, some z, some e => fmtM (fmtMargins maxValue) (Composite.marginsE sp z e)
